@@ -58,8 +58,10 @@ def env_cases(ctx, rng, big):
                     if len(stream) >= 24:
                         ln = int.from_bytes(stream[16:20], "little")
                         hr = [row(stream[24:24 + ln])] if ln <= len(stream) else [row(stream[24:])]
+                    reser = outcome(got[1].serialize) if got[0] == "ok" else ("raise", b"")
                     c = {"id": "ep%d.%s" % (k, name), "kind": "envparse", "net": net, "stream": B(stream), "hr": hr, "mut": name.split("@")[0],
-                         "res": "ok" if got[0] == "ok" else "raise", "cmd": B(got[1].command) if got[0] == "ok" else [], "payload": B(got[1].payload) if got[0] == "ok" else []}
+                         "res": "ok" if got[0] == "ok" else "raise", "cmd": B(got[1].command) if got[0] == "ok" else [], "payload": B(got[1].payload) if got[0] == "ok" else [],
+                         "reser": B(reser[1]) if reser[0] == "ok" else [0]}
                     cases.append(c)
                     ctx.nontriv(("envparse", name.split("@")[0], c["res"]))
     return cases
